@@ -115,7 +115,8 @@ class CallsMixin:
         if len(node.generators) != 1:
             raise Unsupported('nested comprehension')
         g = node.generators[0]
-        m = self.iter_model(self.eval(g.iter, st), st)
+        srcv = self.eval(g.iter, st)
+        m = self.iter_model(srcv, st)
         if m.setlike is not None:
             raise Unsupported('comprehension over set')
         # one canonical index symbol for all (non-nested) comprehensions of a function: equal filter conditions then
@@ -143,6 +144,11 @@ class CallsMixin:
         if elt_t is None:
             raise Unsupported('comprehension of python-level tuples')
         if not conds:
+            if srcv.ty.kind in ('List', 'Np1') and srcv.ty.args[0] == elt.ty and isinstance(g.target, ast.Name) and \
+                    isinstance(node.elt, ast.Name) and node.elt.id == g.target.id:
+                # [x for x in L]: a copy of L (same length, same items)
+                ln0, arr0 = self.seq_parts(srcv, st)
+                return self.mk_list(st, elt.ty, ln0, arr0, kind=kind)
             return self.mk_list(st, elt.ty, m.n, z3.Lambda([i], elt_t), kind=kind)
         # filtered comprehension: characterised by an order-preserving bijection between kept source indices and
         # result indices (consequence of Python's semantics)
